@@ -1,5 +1,7 @@
 """Guard recognition (DESIGN 5B): which blocks are only entered when a fallible call succeeded,
 or when a comparison holds."""
+import re
+
 from facts import op_local, op_place, callee_is
 
 # wrappers that map the success variant of their argument to the success variant of their result
@@ -113,7 +115,172 @@ CMP_NEG = {"Lt": "Ge", "Gt": "Le", "Le": "Gt", "Ge": "Lt", "Eq": "Ne", "Ne": "Eq
 def branch_conditions(body, prov):
     """for every switch on a bool produced by a comparison: list of
     (true_block|None, false_block|None, op, a_term, b_term, switch_bb). A block is reported only
-    when it is entered exclusively through that edge."""
+    when it is entered exclusively through that edge. Switches on a bool *variable* that merges the arms of a
+    short-circuit expression (`let ok = a <= x && x <= b; if ok {..}`) contribute the comparisons that are known to
+    hold on each edge (see via_bool_locals)."""
+    key = ("branch_conditions", id(prov))
+    cache = body.__dict__.setdefault("_guard_cache", {})
+    if key in cache:
+        return cache[key]
+    base = direct_branch_conditions(body, prov) + checked_sub_conditions(body, prov)
+    out = base + via_bool_locals(body, prov, base)
+    cache[key] = out
+    return out
+
+
+def checked_sub_conditions(body, prov):
+    """`a.checked_sub(b)` is None exactly when a < b (unsigned operands): the None arm of a match on it is a block where a < b
+    holds, the Some arm (and every block reached only with the success payload, e.g. after `.ok_or(..)?`) one where a >= b holds.
+    Reported in the format of branch_conditions with op Lt."""
+    out = []
+    for bi, t in body.calls():
+        p = t["callee"].get("path") or ""
+        if not re.search(r"core::num::<impl (u8|u16|u32|u64|u128|usize)>::checked_sub$", p) or t["dest"]["p"] or len(t["args"]) != 2:
+            continue
+        a, c = prov.op(t["args"][0]), prov.op(t["args"][1])
+        d = t["dest"]["l"]
+        for sb in success_blocks(body, d):
+            out.append((None, sb, "Lt", a, c, bi))
+        # the None arm of a direct match on the Option
+        for bj, kind, item in uses_of_local(body, d):
+            if kind == "stmt" and item["rv"]["k"] == "discr" and not item["rv"]["p"]["p"]:
+                dl = item["p"]["l"]
+                for bk, k2, sw in uses_of_local(body, dl):
+                    if k2 != "switch":
+                        continue
+                    for val, tgt in sw["arms"]:
+                        if val == 0 and body.preds(tgt) == [bk]:
+                            out.append((tgt, None, "Lt", a, c, bk))
+    return out
+
+
+def _acyclic(body, region):
+    """no cycle inside the sub-graph induced by `region`"""
+    state = {}
+    for root in region:
+        if root in state:
+            continue
+        stack = [(root, iter([x for x in body.succs(root) if x in region]))]
+        state[root] = 1
+        while stack:
+            n, it = stack[-1]
+            adv = False
+            for m in it:
+                if state.get(m) == 1:
+                    return False
+                if m not in state:
+                    state[m] = 1
+                    stack.append((m, iter([x for x in body.succs(m) if x in region])))
+                    adv = True
+                    break
+            if not adv:
+                state[n] = 2
+                stack.pop()
+    return True
+
+
+def via_bool_locals(body, prov, base):
+    """A switch S on a bool local m with several whole definitions (the arms of `a && b`, `a || b`, `if c { x } else { false }`):
+    on the true edge the value came from a definition other than `m = false`, on the false edge from one other than `m = true`.
+    Every comparison whose edge dominates the blocks of all those definitions held when m was computed; when a single such
+    definition is itself a comparison, it holds (or fails) too. Sound only if m was computed freshly for this test: all
+    definitions of m lie in the acyclic region between their common dominator N and S (each block of it runs at most once between
+    the last visit of N and S), m is never borrowed, and the values compared are SSA values."""
+    out = []
+    defs = body.defs()
+    idom = body.idom()
+    borrowed = None
+    for si, blk in enumerate(body.blocks):
+        t = blk["t"]
+        if t["k"] != "switch" or not body.reachable(si) or t.get("dty") != "bool":
+            continue
+        term = prov.op(t["discr"])
+        neg = False
+        while term[0] == "un" and term[1] == "Not":
+            neg = not neg
+            term = term[2]
+        if term[0] != "local":
+            continue
+        m = term[1]
+        ds = defs.get(m, [])
+        if len(ds) < 2 or any(d[2] not in ("assign", "call") for d in ds) or (1 <= m <= body.arg_count):
+            continue
+        if body.local_ty(m) != "bool":
+            continue
+        if borrowed is None:
+            borrowed = set()
+            for b2 in body.blocks:
+                for st in b2["s"]:
+                    rv = st.get("rv") or {}
+                    if st.get("k") == "assign" and rv.get("k") in ("ref", "rawptr") and not rv["p"]["p"]:
+                        borrowed.add(rv["p"]["l"])
+        if m in borrowed:
+            continue
+        dblocks = [d[0] for d in ds if body.reachable(d[0])]
+        if not dblocks:
+            continue
+        n = si
+        while not all(body.dominates(n, db) for db in dblocks):
+            if n == 0:
+                n = None
+                break
+            n = idom[n]
+        if n is None:
+            continue
+        fw = body.reach_from(n, avoid=frozenset([si])) if n != si else {si}
+        rev = set()
+        st = [si]
+        while st:
+            x = st.pop()
+            if x in rev:
+                continue
+            rev.add(x)
+            if x != n:
+                st.extend(p for p in body.preds(x) if p in fw)
+        region = (fw & rev) | {n}
+        if any(db not in region and db != si for db in dblocks) or not _acyclic(body, region - {si}):
+            continue
+        false_b = None
+        for val, tgt in t["arms"]:
+            if val == 0:
+                false_b = tgt
+        true_b = t["otherwise"]
+        if false_b is None:
+            continue
+        if neg:
+            true_b, false_b = false_b, true_b
+        vals = []
+        for bb, idx, kind, item in ds:
+            if not body.reachable(bb):
+                continue
+            v = prov.rvalue(item["rv"]) if kind == "assign" else ("call",)
+            while v[0] in ("copy",):
+                v = v[1]
+            vals.append((bb, v))
+        for edge_true, tgt in ((True, true_b), (False, false_b)):
+            if body.preds(tgt) != [si]:
+                continue
+            contrib = [(bb, v) for bb, v in vals if not (v[0] == "c" and bool(v[1]) == (not edge_true) and v[1] in (0, 1, True, False))]
+            if not contrib:
+                continue
+            for tb, fb, op, a, c, sw in base:
+                if tb is not None and all(body.dominates(tb, bb) for bb, _ in contrib):
+                    out.append((tgt, None, op, a, c, si))
+                if fb is not None and all(body.dominates(fb, bb) for bb, _ in contrib):
+                    out.append((None, tgt, op, a, c, si))
+            if len(contrib) == 1:
+                v = contrib[0][1]
+                vneg = False
+                while v[0] == "un" and v[1] == "Not":
+                    vneg = not vneg
+                    v = v[2]
+                if v[0] == "bin" and v[1] in CMP_FLIP:
+                    holds = edge_true != vneg
+                    out.append((tgt, None, v[1], v[2], v[3], si) if holds else (None, tgt, v[1], v[2], v[3], si))
+    return out
+
+
+def direct_branch_conditions(body, prov):
     out = []
     for bi, b in enumerate(body.blocks):
         t = b["t"]
